@@ -9,6 +9,7 @@ by forking over *all* feasible values (each value is a log entry), never by
 silently picking one.
 """
 import fractions
+import os
 import numbers
 import time
 
@@ -40,6 +41,16 @@ class Budget(BaseException):
 
 
 EX = None  # current explorer (one per process)
+SOLVER_KIND = os.environ.get('SYMX_SOLVER', 'default')
+
+
+def make_solver():
+    if SOLVER_KIND == 'simple':
+        return z3.SimpleSolver()
+    if SOLVER_KIND == 'qflia':
+        return z3.SolverFor('QF_LIA')
+    return z3.Solver()
+
 
 
 def cur():
@@ -48,7 +59,7 @@ def cur():
 
 class Explorer:
     def __init__(self, timeout=None, max_paths=None, conc_limit=4096):
-        self.solver = z3.Solver()
+        self.solver = make_solver()
         self.timeout = timeout
         self.max_paths = max_paths
         self.conc_limit = conc_limit
@@ -91,7 +102,10 @@ class Explorer:
         else:
             self._tick()
             rt = self.check(cond)
-            rf = self.check(z3.Not(cond))
+            if rt == z3.unsat:
+                rf = z3.sat          # the path itself is feasible, so the other side is
+            else:
+                rf = self.check(z3.Not(cond))
             can_t = rt == z3.sat
             can_f = rf == z3.sat
             if rt == z3.unknown or rf == z3.unknown:
